@@ -286,11 +286,11 @@ func (c *container) sendLoop() {
 			if !ok {
 				return
 			}
+			verifEvent("host", "send", verifCmdKind(cmd.Cmd))
 			if err := c.socket.SendMsg(cmd.Cmd, cmd.Msg); err != nil {
 				c.socketError(err)
 				return
 			}
-			verifEvent("host", "send", verifCmdKind(cmd.Cmd))
 		}
 	}
 }
